@@ -11,6 +11,7 @@ def main():
     runner = cases.Runner(mp)
     common.run_models(chk, MODELS)
     machine.run(chk, mp)
+    machine.run_unary(chk, mp, [("MpfMachine", "MpfMachine_roundint_%s.cfg" % chk.pick("quick", "thorough"), "exact", True)])
     g = gen.G(chk.seed * 1000003 + int(PROP[1:]))
     cs = arith.GROUPS[PROP](g, chk.pick(2500, 80000))
     common.judge_cases(chk, cs, runner, "post", "integer-part / modulo definition violated")
